@@ -177,8 +177,8 @@ Proof.
   - unfold truncate_db, reset_after. rewrite lockpg_clear_from. exact E1.
 Qed.
 
-Lemma body_ops_ok s zf acts :
-  (forall p q, In (p, q) zf -> pageN s < p /\ pg_wal q = false) -> Forall (act_ok true) acts ->
+Lemma body_ops_ok k s zf acts :
+  (forall p q, In (p, q) zf -> pageN s < p) -> Forall (act_ok k) acts ->
   Forall (body_ok s) (zf_ops zf ++ act_ops (pageN s) acts).
 Proof.
   intros Hzf Hacts. apply Forall_app. split; apply Forall_forall; intros o Hin.
@@ -195,23 +195,25 @@ Proof.
   - auto.
 Qed.
 
-(* one step of the primary, the follower applying what the step published *)
-Lemma follow_step sP sR h sP' sR' : FInv sP sR -> wf_step sP h ->
-  run_group sP (hops sP h) = (0, sP') -> run_recv sR (new_files sP sP') = Some sR' -> FInv sP' sR'.
+(* a rollback-journal transaction of the primary (whatever its pages carry), the follower applying the file it published:
+   an argument about contents only *)
+Lemma follow_tx_sim k sP sR zf acts c sP' sR' :
+  dirty sP = [] -> wal_mode sP = false -> Sim sP sR ->
+  (forall p q, In (p, q) zf -> pageN sP < p) -> Forall (act_ok k) acts ->
+  run_group sP (hops sP (HTx zf acts c)) = (0, sP') -> lockpg sP' = lockpg sP ->
+  run_recv sR (new_files sP sP') = Some sR' -> dirty sP' = [] /\ Sim sP' sR'.
 Proof.
-  intros [HJ [Hd HS]] Hwf H HR. destruct (j_step sP h sP' HJ Hwf H) as [HJ' El].
-  destruct h as [zf acts c|n]; cbn [hops wf_step] in *.
-  - destruct Hwf as [Hnd [Hzf Hacts]].
+  intros Hd Hmode HS Hzf Hacts H El HR. cbn [hops] in H.
     rewrite app_assoc, run_group_app in H.
     destruct (run_group sP (zf_ops zf ++ act_ops (pageN sP) acts)) as [code s2] eqn:E2. destruct code; [|inversion H].
-    pose proof (same_run sP _ sP s2 (body_ops_ok sP zf acts Hzf Hacts) (same_start sP Hd (j_mode sP HJ)) E2) as SM.
+    pose proof (same_run sP _ sP s2 (body_ops_ok k sP zf acts Hzf Hacts) (same_start sP Hd Hmode) E2) as SM.
     destruct SM as [Ss Sm Sp Sso Spo [Ft [Fc [Fd Fl]]]].
     apply run_group_one in H. cbn [step] in H.
     destruct (writeable s2 && (pageN s2 =? 0) && match dbfile s2 with [] => true | _ :: _ => false end) eqn:Einv.
     + unfold op_invalidate_journal in H. inversion H; subst sP'. clear H.
       apply andb_true_iff in Einv. destruct Einv as [Einv _]. apply andb_true_iff in Einv. destruct Einv as [_ Ep]. apply N.eqb_eq in Ep.
       unfold new_files in HR. cbn [ltxdir with_dirty] in HR. rewrite Fd, skipn_same in HR. cbn [run_recv] in HR. inversion HR; subst sR'.
-      split; [exact HJ'|]. split; [reflexivity|]. destruct HS as [A B C D E].
+      split; [reflexivity|]. destruct HS as [A B C D E].
       constructor; cbn [lockpg pageN txid chk with_dirty]; try congruence.
       intros p Hp. cbn [pageN with_dirty] in Hp. lia.
     + destruct (commit_journal_file s2 c sP' H) as [f [E1 [E2' [E3 [E4 [E5 [E6 [E7 [E8 E9]]]]]]]]].
@@ -244,7 +246,7 @@ Proof.
         - intros p q Hin. assert (In p (map fst (l_pages f))) as Hk by (apply in_map_iff; exists (p, q); auto).
           destruct (Hkeys p Hk) as [_ Hj]. apply journal_pgnos_in in Hj. destruct Hj as [[Hdd _]|[Hgt _]]; [apply Spo; exact Hdd|lia].
         - unfold KeysNoDup. rewrite E7. apply sorted_nodup. apply filter_sorted. apply journal_pgnos_sorted. exact Sso. }
-      split; [exact HJ'|]. split; [exact Edr|].
+      split; [exact Edr|].
       constructor.
       * congruence.
       * congruence.
@@ -266,7 +268,18 @@ Proof.
              destruct (N.le_gt_cases x (pageN s2)); [assumption|exfalso; apply Hnj; right; lia]. }
            change (fpg (with_dir sR (if is_snapshot f then [f] else ltxdir sR ++ [f])) x) with (fpg sR x).
            rewrite (Ss x ltac:(lia) Hnd2). apply E; [lia|congruence].
-  - apply run_group_one in H. cbn [step] in H.
+Qed.
+
+(* one step of the primary, the follower applying what the step published *)
+Lemma follow_step sP sR h sP' sR' : FInv sP sR -> wf_step sP h ->
+  run_group sP (hops sP h) = (0, sP') -> run_recv sR (new_files sP sP') = Some sR' -> FInv sP' sR'.
+Proof.
+  intros [HJ [Hd HS]] Hwf H HR. destruct (j_step sP h sP' HJ Hwf H) as [HJ' El].
+  destruct h as [zf acts c|n]; cbn [wf_step] in *.
+  - destruct Hwf as [Hnd [Hzf Hacts]].
+    destruct (follow_tx_sim true sP sR zf acts c sP' sR' Hd (j_mode sP HJ) HS (fun p q Hin => proj1 (Hzf p q Hin)) Hacts H El HR) as [A B].
+    split; [exact HJ'|]. split; assumption.
+  - cbn [hops] in H. apply run_group_one in H. cbn [step] in H.
     assert (Hl : ltxdir sP' = ltxdir sP /\ dirty sP' = dirty sP /\ forall x, 1 <= x <= pageN sP -> fpg sP' x = fpg sP x).
     { unfold op_truncate in H. destruct (N.eqb_spec n (pageN sP)) as [->|Hne]; cbn [negb] in H; [|discriminate]. inversion H; subst sP'.
       split; [apply ltxdir_truncate_db|]. split.
@@ -306,6 +319,14 @@ Proof.
     apply (IH s1 r1 sP' sR' (follow_step sP sR h s1 r1 HI Hw E Er) (Hrest s1 eq_refl) H).
 Qed.
 
+Lemma follow_run_hsteps : forall hs sP sR sP' sR', follow sP sR hs = Some (sP', sR') -> run_hsteps sP hs = Some sP'.
+Proof.
+  induction hs as [|h r IH]; intros sP sR sP' sR' H; cbn [follow run_hsteps] in *.
+  - inversion H; subst. reflexivity.
+  - destruct (run_group sP (hops sP h)) as [code s1]. destruct code; [|discriminate].
+    destruct (run_recv sR (new_files sP s1)) as [r1|]; [|discriminate]. apply (IH s1 r1 sP' sR' H).
+Qed.
+
 (* C01 for every rollback-journal history of a primary that starts empty and a follower that starts empty and is sent, step
    by step, the files the primary's log gains: at the end the follower is at the primary's position and its database file
    holds, page for page, what the primary's holds - no premise about checksums *)
@@ -318,11 +339,7 @@ Proof.
   assert (FInv (init lock) (init lock)) as HI0.
   { split; [apply j_init; exact Hl|]. split; [reflexivity|]. constructor; try reflexivity. }
   destruct (follow_invariant hs _ _ sP sR HI0 Hwf H) as [HJ [_ [A B C D E]]].
-  destruct (journal_history_invariant hs (init lock) sP (j_init lock Hl) Hwf) as [_ El].
-  { clear -H. revert H. generalize (init lock) at 1 3. generalize (init lock). induction hs as [|h r IH]; intros a b H; cbn [follow run_hsteps] in *.
-    - inversion H; subst. reflexivity.
-    - destruct (run_group b (hops b h)) as [code s1]. destruct code; [|discriminate].
-      destruct (run_recv a (new_files b s1)) as [r1|]; [|discriminate]. apply (IH r1 s1 H). }
+  destruct (journal_history_invariant hs (init lock) sP (j_init lock Hl) Hwf (follow_run_hsteps hs _ _ sP sR H)) as [_ El].
   change (lockpg (init lock)) with lock in El. rewrite El in E. auto.
 Qed.
 
